@@ -54,6 +54,7 @@ type Controller struct {
 	Lead     []string `json:"lead,omitempty"`
 	Extra    []string `json:"extra,omitempty"`
 	NoEmbed  bool     `json:"no_embed,omitempty"` // a plain struct (not a controller) carrying annotated methods
+	File     string   `json:"file,omitempty"`     // file name override (several controllers in one file)
 	Fields   string   `json:"-"`                  // extra struct fields (runtime seam)
 }
 
@@ -237,7 +238,11 @@ func Render(p *Project, units []Unit) []string {
 		}
 		for _, c := range u.Controllers {
 			pkgs[c.Pkg] = true
-			f := get(c.Pkg, "ctl_"+strings.ToLower(c.Name)+".go")
+			fileName := "ctl_" + strings.ToLower(c.Name) + ".go"
+			if c.File != "" {
+				fileName = c.File
+			}
+			f := get(c.Pkg, fileName)
 			if !c.NoEmbed {
 				f.imports["github.com/gopher-fleece/runtime"] = true
 			}
